@@ -127,7 +127,7 @@ func ZZ_C11_match_struct() {
 
 func ZZ_C11_match_abs() {
 	maxReg := 2
-	L := 24
+	L := 28
 	if zz.Thorough() {
 		maxReg, L = 3, 40
 	}
@@ -332,7 +332,11 @@ func zzC11Setup(maxReg int) (f *Fosite, ar *AuthorizeRequest, regs []zzURI, req 
 	absent = zz.Choice("absent", 2) == 1
 	regs = make([]zzURI, n)
 	for i := range regs {
-		regs[i] = zzNewURI("reg", zzURIOpt{SchemeKinds: 1, HostKinds: 2, HostLen: hostLen, KvQuery: true, HostNonEmpty: true})
+		o := zzURIOpt{SchemeKinds: 1, HostKinds: 2, HostLen: hostLen, KvQuery: true, HostNonEmpty: true}
+		if i > 0 {
+			o.HasQuery = 1 // further registered URIs: without query (keeps the thorough tier inside its budget)
+		}
+		regs[i] = zzNewURI("reg", o)
 	}
 	if !absent {
 		o := zzURIOpt{SchemeKinds: 2, HostKinds: 2, HostLen: hostLen, KvQuery: true, HostNonEmpty: true}
@@ -394,7 +398,7 @@ func ZZ_C11_write_error() {
 		zz.Cover("unvalidated-uri", true)
 	}
 	var cause error = ErrInvalidScope
-	if zz.Thorough() && zz.Choice("cause", 2) == 1 {
+	if zz.Thorough() && len(regs) == 1 && zz.Choice("cause", 2) == 1 {
 		cause = ErrAccessDenied.WithHint("denied")
 	}
 	rw := &zzRW{hdr: http.Header{}}
